@@ -14,7 +14,7 @@ import subprocess
 import sys
 
 ID = "C02"
-RULE = ("histories on a fresh Directory volume: (a) exhaustive: PUT of sizes {0, 1, small, >2^18} x pre-state "
+RULE = ("histories on a fresh Directory volume (30 % of them with Serialize: true): (a) exhaustive: PUT of sizes {0, 1, small, >2^18} x pre-state "
         "{absent, intact copy, stored by an acknowledged PUT, corrupt copy} x {run, SIGKILL at verifPoints of Compare/Touch/WriteBlock, context cancelled at verifPoints, "
         "context cancelled in the middle of the copy from putWithPipe's pipe, Chtimes / Rename of the first WriteBlock attempt made "
         "to fail (temp file unlinked just before) so that PutBlock retries, with kills in the error return and in the retry} "
@@ -25,7 +25,7 @@ RULE = ("histories on a fresh Directory volume: (a) exhaustive: PUT of sizes {0,
         "killed, cancelled or faulted; distinct = distinct case line")
 ASSUMPTIONS = [
     "process death = loss of all state except the directory map as of the last completed system call (SIGKILL of the process; same kernel keeps running)",
-    "one Directory volume, Serialize off, operations of a history run one after another (races are C04's subject)",
+    "one Directory volume (Serialize off, and on for 30 % of the histories), operations of a history run one after another (races are C04's subject)",
     "reader outcomes of WriteBlock are those putWithPipe can produce: a prefix of the hash-verified request body, EOF only after all of it",
 ]
 TRUSTED = [
@@ -294,7 +294,22 @@ def _random_history(rng, tier):
     return "hist " + ";".join(ops)
 
 
+def _serialize_some(rng, cases, share):
+    """Serialize: true for a share of the histories (not for put2: the second writer would wait for the
+    volume lock; not for a cancelled PUT of the empty block that is not the last op)."""
+    out = []
+    for c in cases:
+        if c.startswith("hist ") and "put2:" not in c and rng.random() < share:
+            c = "hists " + c[5:]
+        out.append(c)
+    return out
+
+
 def generate(rng, tier):
+    return _serialize_some(rng, _generate(rng, tier), 0.3)
+
+
+def _generate(rng, tier):
     cases = []
     if _points_line[0]:
         cases.append(_points_line[0])
@@ -333,7 +348,7 @@ HEX32 = re.compile(r"^[0-9a-f]{32}$")
 
 def _ops(case):
     f = case.split(" ")
-    return f[1].split(";") if len(f) == 2 and f[0] == "hist" else []
+    return f[1].split(";") if len(f) == 2 and f[0] in ("hist", "hists") else []
 
 
 def _parse_obs(obs):
@@ -495,6 +510,7 @@ def neighbours(case, rng):
     if not ops:
         return []
     out = []
+    head = case.split(" ")[0]
     for _ in range(12):
         new = []
         for o in ops:
@@ -518,13 +534,13 @@ def neighbours(case, rng):
                 if size == 0 or j == _chunks(size, c):
                     ok = False
         if ok:
-            out.append("hist " + ";".join(new))
+            out.append(head + " " + ";".join(new))
     # also the plain single-op enumerations for the bodies of this case
     for o in ops:
         g = o.split(":")
         if g[0] == "put":
             for pre in ("", f"seed:{g[1]}:intact;", f"put:{g[1]}:run;", f"seed:{g[1]}:corrupt;"):
                 for m in ["run"] + [f"k{i}" for i in range(13)] + [f"c{i}" for i in range(13)]:
-                    out.append(f"hist {pre}put:{g[1]}:{m}")
+                    out.append(f"{head} {pre}put:{g[1]}:{m}")
             break
     return out
